@@ -40,3 +40,14 @@ Proof. repeat split; vm_compute; reflexivity. Qed.
    of the lz4 theorems is needed. *)
 Lemma lz4_prefix_wraps : be32 (2 ^ 32) = [0; 0; 0; 0].
 Proof. vm_compute. reflexivity. Qed.
+
+(* lz4-offset-zero-accepted (open; third-party library): the LZ4 format rejects a match with offset 0; the
+   library accepts it (the harness replays these bytes on the real LZ4Compressor: data, no error).  No theorem
+   of Props.v is affected: they quantify over the block codec and take its round-trip law as a premise. *)
+Definition witness_offset_zero : bytes :=
+  [0; 0; 0; 60; 31; 142; 0; 0; 18; 0; 2; 0; 0; 2; 0; 224] ++ repeat 142 14.
+
+Example lz4_offset_zero_rejected_by_format :
+  lz4_block_decode (skipn 4 witness_offset_zero) = None
+  /\ lz4_decode lz4_block_decode_into witness_offset_zero = None.
+Proof. split; vm_compute; reflexivity. Qed.
